@@ -79,6 +79,7 @@ class Transport(object):
         self.writes = []     # (now, bytes)
         self.rx = []         # (now, chunk) delivered to the protocol
         self.opened_at = world.now
+        self.lose_time = None
 
     def write(self, data):
         if not isinstance(data, (bytes, bytearray)):
@@ -95,6 +96,7 @@ class Transport(object):
     def loseConnection(self):
         if self.connected and not self.disconnecting:
             self.disconnecting = 1
+            self.lose_time = self.world.now
             self.world.effect(('lose', self.tid))
 
     def abortConnection(self):
